@@ -12,39 +12,18 @@ theorem convertZToMinAltitudekey_eq (f zi zo E O : Int) :
     Gen.convertZToMinAltitudekey f zi zo E O = Outcome.ofOption (zToMinKey f zi zo E O) := by
   unfold Gen.convertZToMinAltitudekey zToMinKey
   simp only [Id.run, id_pure, CalculateArithmeticShift_eq, validateIndexExists_eq]
-  by_cases h1 : validateIndex f zi true = true
-  · by_cases h2 : validateIndex (arithShift (arithShift f (-(zi - 25)) + O) (zo - E)) zo false = true
-    · simp [h1, h2, Outcome.ofOption, id_pure]
-    · simp [h1, h2, Outcome.ofOption, id_pure]
-  · simp [h1, Outcome.ofOption, id_pure]
+  tie_auto
 
 theorem convertZToMaxAltitudekey_eq (f zi zo E O : Int) :
     Gen.convertZToMaxAltitudekey f zi zo E O = Outcome.ofOption (zToMaxKey f zi zo E O) := by
   unfold Gen.convertZToMaxAltitudekey zToMaxKey
   simp only [Id.run, id_pure, CalculateArithmeticShift_eq, validateIndexExists_eq]
-  by_cases h1 : validateIndex f zi true = true
-  · by_cases hd : 25 - zi < 0
-    · by_cases hs : zo - E - -(25 - zi) < 0
-      · simp only [h1, hd, hs, if_true, if_false, not_true, not_false_eq_true, id_pure]
-        split <;> simp_all [Outcome.ofOption, id_pure]
-      · simp only [h1, hd, hs, if_true, if_false, not_true, not_false_eq_true, id_pure]
-        split <;> simp_all [Outcome.ofOption, id_pure]
-    · by_cases hs : zo - E - 0 < 0
-      · simp only [h1, hd, hs, if_true, if_false, not_true, not_false_eq_true, id_pure]
-        split <;> simp_all [Outcome.ofOption, id_pure]
-      · simp only [h1, hd, hs, if_true, if_false, not_true, not_false_eq_true, id_pure]
-        split <;> simp_all [Outcome.ofOption, id_pure]
-  · simp [h1, Outcome.ofOption, id_pure]
+  tie_auto
 
 theorem ConvertZToMinMaxAltitudekey_eq (f zi zo E O : Int) :
     Gen.ConvertZToMinMaxAltitudekey f zi zo E O = z2k f zi zo E O := by
   unfold Gen.ConvertZToMinMaxAltitudekey z2k
   simp only [Id.run, id_pure, convertZToMinAltitudekey_eq, convertZToMaxAltitudekey_eq]
-  cases zToMinKey f zi zo E O with
-  | none => simp [Outcome.ofOption, id_pure]
-  | some lo =>
-    cases zToMaxKey f zi zo E O with
-    | none => simp [Outcome.ofOption, id_pure]
-    | some hi => by_cases h : lo > hi <;> simp [Outcome.ofOption, h, id_pure]
+  cases zToMinKey f zi zo E O <;> cases zToMaxKey f zi zo E O <;> simp only [Outcome.ofOption, id_pure] <;> tie_auto
 
 end SpatialId.Tie
